@@ -194,6 +194,22 @@ LOOKALIKES = [
     "def f(m, c, v, it, ait, trap, probe, o, d, i, E):\n    probe(None, None, None)\n    for i in it(1):\n        with m(2):\n            x = probe(None, None, None)\n            if c(3): return x\n",
 ]
 
+# None beyond constant slot 255 (EXTENDED_ARG before every LOAD_CONST None) combined with async with
+# inside except / finally bodies (3.12 places CLEANUP_THROW inline there) and with multi-item headers
+_MANY = '    """doc"""\n' + "".join("    k0 = %d.5\n" % j for j in range(260))
+LOOKALIKES += [
+    "async def f(m, c, v, it, ait, trap, probe, o, d, i, E):\n" + _MANY +
+    "    try:\n        await trap(1)\n    except E:\n        async with m(2) as x:\n            await trap(3)\n"
+    "    finally:\n        async with m(4):\n            await trap(5)\n",
+    "async def f(m, c, v, it, ait, trap, probe, o, d, i, E):\n" + _MANY +
+    "    async with m(1), m(2) as y:\n        try:\n            await trap(3)\n        except E:\n"
+    "            async with m(4) as x, m(5):\n                await trap(6)\n                if c(7): return\n"
+    "        yield 8\n",
+    "def f(m, c, v, it, ait, trap, probe, o, d, i, E):\n" + _MANY +
+    "    for i in it(1):\n        try:\n            with m(2) as x:\n                yield 3\n                if c(4): continue\n"
+    "        finally:\n            with m(5):\n                yield 6\n",
+]
+
 
 def gen_program(seed: int, size: int):
     if seed < 0:
@@ -204,6 +220,11 @@ def gen_program(seed: int, size: int):
     body = g.block("    ", 0, False)
     if flavour in ("gen", "agen") and "yield" not in body:
         body += "    yield 0\n"
+    if rng.random() < 0.12:
+        # None is not among the first 256 constants (docstring in slot 0, then 260 distinct constants):
+        # EXTENDED_ARG before the LOAD_CONST None of every exit call / await sequence and on long jumps,
+        # in combination with whatever block structure the body has
+        body = '    """doc"""\n' + "".join("    k0 = %d.5\n" % j for j in range(260)) + body
     head = ("async def" if flavour in ("coro", "agen") else "def") + " f(m, c, v, it, ait, trap, probe, o, d, i, E):\n"
     return head + body
 
